@@ -45,6 +45,23 @@ def import_tree(repo: str, knobs: Dict[str, Any]) -> None:
     pkg_dir = os.path.join(repo, "odxtools")
     if not os.path.exists(os.path.join(pkg_dir, "version.py")):
         _fake_version_module()
+    if knobs.get("optimize"):
+        # environment knob: the interpreter runs with -O. sys.flags cannot be changed in a
+        # forked worker, so the modules of the tree under test are compiled the way -O
+        # compiles them (assert statements and `if __debug__:` blocks are dropped); cached
+        # byte code is bypassed for them.
+        import importlib.machinery as im
+        orig_get_code = im.SourceFileLoader.get_code
+        prefix = pkg_dir + os.sep
+        level = int(knobs["optimize"])
+
+        def get_code(self, fullname):  # type: ignore[no-untyped-def]
+            path = self.get_filename(fullname)
+            if os.path.realpath(path).startswith(prefix):
+                return compile(self.get_data(path), path, "exec", dont_inherit=True, optimize=level)
+            return orig_get_code(self, fullname)
+
+        im.SourceFileLoader.get_code = get_code  # type: ignore[method-assign]
     if "import_strict" in knobs:
         # staged import: make odxtools.exceptions importable before the package body
         # runs, set the flag, then execute the real __init__ inside the shell
@@ -137,8 +154,60 @@ def sig_key(v: Dict[str, Any]) -> str:
     return v["oracle"] + "|" + "|".join(f"{k}={sig[k]}" for k in sorted(sig))
 
 
+def in_child(fn, *args):
+    """Run fn(*args) in a forked child of this (never used) template process and return its
+    result.  Every chunk / minimisation / replay starts from the same process state (the
+    imports and worker_init), so what a run sees of earlier runs is exactly the prefix of its
+    own chunk: process-wide residue (module-level caches, class attributes, ...) is part of
+    the deterministic, replayable history instead of depending on which pool worker happened
+    to execute which chunks."""
+    import pickle
+    import traceback
+    r, w = os.pipe()
+    sys.stdout.flush()
+    sys.stderr.flush()
+    pid = os.fork()
+    if pid == 0:
+        code = 0
+        try:
+            os.close(r)
+            try:
+                data = pickle.dumps(("ok", fn(*args)))
+            except BaseException as e:  # noqa: BLE001
+                data = pickle.dumps(("err", f"{type(e).__name__}: {e}\n{traceback.format_exc()}"))
+            with os.fdopen(w, "wb") as f:
+                f.write(data)
+        except BaseException:  # noqa: BLE001
+            code = 3
+        finally:
+            os._exit(code)
+    os.close(w)
+    chunks = []
+    with os.fdopen(r, "rb") as f:
+        while True:
+            b = f.read(1 << 20)
+            if not b:
+                break
+            chunks.append(b)
+    _, st = os.waitpid(pid, 0)
+    if not chunks:
+        raise RuntimeError(f"chunk child died (wait status {st})")
+    kind, val = pickle.loads(b"".join(chunks))
+    if kind == "err":
+        raise RuntimeError("exception in chunk child: " + val)
+    return val
+
+
 def run_chunk(prop: str, batch_seed: int, tier: str, indices: List[int], want_digests: bool,
               wall_limit: float) -> Dict[str, Any]:
+    agg = in_child(_run_chunk, prop, batch_seed, tier, indices, want_digests, wall_limit)
+    for ent in agg.get("violations", {}).values():
+        ent["chunk"] = list(indices)
+    return agg
+
+
+def _run_chunk(prop: str, batch_seed: int, tier: str, indices: List[int], want_digests: bool,
+               wall_limit: float) -> Dict[str, Any]:
     faulthandler.dump_traceback_later(wall_limit, exit=True)
     try:
         mod = get_prop(prop)
@@ -172,6 +241,77 @@ def violation_matches(res: Dict[str, Any], key: str) -> Optional[Dict[str, Any]]
 
 def minimise(prop: str, trace: Dict[str, Any], key: str, wall_limit: float, tier: str = "quick",
              batch_seed: int = 0) -> Dict[str, Any]:
+    return in_child(_minimise, prop, trace, key, wall_limit, tier, batch_seed)
+
+
+def run_history(prop: str, history: List[Dict[str, Any]], trace: Dict[str, Any]) -> Dict[str, Any]:
+    """Execute the predecessor runs and then the run of interest, in this process."""
+    mod = get_prop(prop)
+    for t in history:
+        try:
+            mod.execute(t)
+        except Exception:  # noqa: BLE001 - a predecessor only matters for what it leaves behind
+            pass
+    return mod.execute(trace)
+
+
+def minimise_history(prop: str, batch_seed: int, tier: str, chunk: List[int], index: int, key: str,
+                     wall_limit: float) -> Dict[str, Any]:
+    """The violation of run `index` needs what earlier runs of its chunk left behind in the
+    process.  Reproduce it from a pristine child, then drop predecessors (ddmin) and shrink
+    the final run while the same violation class persists; every candidate is judged in its
+    own pristine child."""
+    import time
+    from .shrink import ShrinkBudget, ddmin_list
+    t_end = time.time() + wall_limit * 0.8
+    _STATE["batch_seed"] = batch_seed
+    mod = get_prop(prop)
+    preds_idx = chunk[:chunk.index(index)]
+    preds = [mod.gen(run_seed(prop, batch_seed, j), j, tier) for j in preds_idx]
+    final = mod.gen(run_seed(prop, batch_seed, index), index, tier)
+
+    def judge(hist: List[Dict[str, Any]], t: Dict[str, Any]):
+        try:
+            r = in_child(run_history, prop, hist, t)
+        except Exception:  # noqa: BLE001
+            return None
+        v = violation_matches(r, key)
+        return (v, r["digest"]) if v is not None else None
+
+    if judge(preds, final) is None:
+        return {"shrunk": False, "note": "violation did not reproduce from the history of its chunk"}
+    budget = ShrinkBudget(400)
+    n0 = len(preds)
+
+    def test(cand: List[Dict[str, Any]]) -> bool:
+        return time.time() < t_end and judge(cand, final) is not None
+
+    preds = ddmin_list(preds, test, budget)
+    size0 = mod.trace_size(final) if hasattr(mod, "trace_size") else None
+    if hasattr(mod, "shrink") and time.time() < t_end:
+        calls = [0]
+
+        def still_fails(t: Dict[str, Any]) -> bool:
+            calls[0] += 1
+            if calls[0] > 300 or time.time() > t_end:
+                return False
+            return judge(preds, t) is not None
+
+        try:
+            final = mod.shrink(final, still_fails)
+        except Exception:  # noqa: BLE001
+            pass
+    got = judge(preds, final)
+    if got is None:
+        return {"shrunk": False, "note": "history minimisation lost the violation"}
+    return {"trace": final, "history": preds, "shrunk": True, "size_before": size0,
+            "size_after": mod.trace_size(final) if hasattr(mod, "trace_size") else None,
+            "history_before": n0, "history_after": len(preds), "violation": got[0], "digest": got[1],
+            "key": key}
+
+
+def _minimise(prop: str, trace: Dict[str, Any], key: str, wall_limit: float, tier: str = "quick",
+              batch_seed: int = 0) -> Dict[str, Any]:
     """Shrink `trace` while the same violation class (oracle + signature) persists."""
     faulthandler.dump_traceback_later(wall_limit, exit=True)
     _STATE["batch_seed"] = batch_seed
